@@ -323,12 +323,12 @@ def other_data_cells(draw, typ, sep_chars=False):
 
 
 @st.composite
-def other_interps(draw, typ):
+def other_interps(draw, typ, supported_clefs_only=False):
     if typ == '**root':
-        return draw(kern_interps())
+        return draw(kern_interps(supported_clefs_only=supported_clefs_only))
     x = draw(st.integers(0, 7))
     if x == 0:
-        return draw(st.one_of(timesigs(), clefs(), keysigs(), meters()))
+        return draw(st.one_of(timesigs(), clefs(supported_only=supported_clefs_only), keysigs(), meters()))
     if x == 1:
         t = draw(st.sampled_from(['*staff1', '*staff2'] + BBOXES))
         return {'k': 'interp', 't': t, 'e': t, 'cat': 'BOUNDING_BOXES' if t.startswith('*xywh') else None}
